@@ -64,3 +64,30 @@ func init() {
 		ex.setBool("c16ReadErrEndsConn", ends && closes, true, note)
 	})
 }
+
+// C16: which deadline the per-stream goroutine of ServeDoQ arms on the stream. The deadline is set once, when the
+// stream is accepted, and never re-armed; it is there to bound the READ of the query frame. If it also covered writes
+// (SetDeadline / SetWriteDeadline) it would run while the handler works and while the reply Write waits for the
+// client's flow control, and a Write cut off by it leaves no / a truncated frame followed by FIN. The fact is
+// `some true` when ServeDoQ makes exactly one deadline call, `stream.SetReadDeadline(...)`; any `*.SetDeadline` /
+// `*.SetWriteDeadline` call in the function gives `some false`.
+func init() {
+	factFuncs = append(factFuncs, func(ex *factExtractor) {
+		const note = "ServeDoQ: the only deadline call in the function is one `stream.SetReadDeadline(...)` (no SetDeadline / SetWriteDeadline on the stream: the reply write is not bounded by the stream deadline)"
+		fd := ex.fn("pkg/server/doq.go", "", "ServeDoQ")
+		if fd == nil {
+			ex.setBool("c16DoqStreamDeadlineReadOnly", false, false, note)
+			return
+		}
+		nRead, nOther := 0, 0
+		for _, c := range ex.calls(fd.Body) {
+			switch {
+			case c == "stream.SetReadDeadline":
+				nRead++
+			case len(c) >= 8 && c[len(c)-8:] == "Deadline": // x.SetDeadline, x.SetWriteDeadline, another receiver's SetReadDeadline
+				nOther++
+			}
+		}
+		ex.setBool("c16DoqStreamDeadlineReadOnly", nRead == 1 && nOther == 0, true, note)
+	})
+}
